@@ -117,7 +117,8 @@ def run_diff(desc, out):
     variants = {"A": [a], "AB": [a, b], "BA": [b, a]}
     if samekeys:
         rng = simgen.mk_rng(desc["seed"], desc["idx"], 131)
-        ka, kb = desc.get("kwargs") or rng.choice((({"seconds_to_start": 600}, {"seconds_to_start": 20}), ({"inplay": False}, {"inplay": True}), ({"max_inplay_seconds": 3}, {"max_inplay_seconds": 600}), ({"inplay": True}, {"inplay": None})))
+        # (falsy values are filters too: inplay=False means "pre-play only", not "no filter")
+        ka, kb = desc.get("kwargs") or rng.choice((({"seconds_to_start": 600}, {"seconds_to_start": 20}), ({"inplay": False}, {"inplay": True}), ({"max_inplay_seconds": 3}, {"max_inplay_seconds": 600}), ({"inplay": True}, {"inplay": None}), ({"inplay": False}, {}), ({}, {"inplay": False}), ({"inplay": False}, {"inplay": None})))
         a, b = dict(a, listener_kwargs=ka), dict(b, listener_kwargs=kb)
         variants = {"A": [a], "B": [b], "AB": [a, b], "BA": [b, a]}
     ledgers = {}
